@@ -95,8 +95,10 @@ def _v11(repo, mod):
 @variant("C03", "exception-match-by-mro", TU, "C03.goals", "exception matching through __mro__ (seed C03-b)")
 def _v12(repo, mod):
     fn = repo.func(TU, "given_exception_matches")
-    r = find_node(fn, lambda n: isinstance(n, ast.Return) and isinstance(n.value, ast.Call))
-    return replace_node(mod, r.value, "exc in err.__mro__")
+    from sa.selftest.harness import replace_nodes
+    tup = find_stmt(fn, lambda s: isinstance(s, ast.If) and "tuple" in norm(s.test))
+    fallback = find_stmt(fn, lambda s: isinstance(s, ast.If) and norm(s.test) == "not isclass(exc)")
+    return replace_nodes(mod, [(tup, "pass"), (fallback, "pass"), (fn.body[-1], "return exc in err.__mro__")])
 
 
 @variant("C03", "disable-without-finally", TR, "C03.restore", "temporarily_disable re-enables only on normal exit (seed C03-a)")
@@ -142,3 +144,10 @@ def _v18(repo, mod):
     fn = repo.func(TR, "ExecutionTracer.init_trace")
     s = find_stmt(fn, lambda s: isinstance(s, ast.Assign) and norm(s.targets[0]) == "new_trace")
     return replace_node(mod, s.value, "self._thread_local_state.trace")
+
+
+@variant("C03", "execution-trace-shares-the-import-predicates", TR, "C03.isolation", "the execution starts on the import trace itself: outcomes of one execution reach the next")
+def _v50(repo, mod):
+    fn = repo.func(TR, "ExecutionTracer.init_trace")
+    s = find_stmt(fn, lambda s: isinstance(s, ast.Assign) and norm(s) == "new_trace = ExecutionTrace()")
+    return replace_node(mod, s, "new_trace = self._import_trace")
